@@ -508,7 +508,10 @@ def log_passes(draw, max_channels=6, max_frames=60, allow_dipmeter=True, x_units
               {'type': 4, 'size': 1, 'rc': 66, 'value': xs['up_down']},
               {'type': 12, 'size': 4, 'rc': 68, 'value': -999.25}]
     if indirect:
-        blocks += [{'type': 8, 'size': 4, 'rc': 68, 'value': float(xs['spacing'])}, {'type': 9, 'size': 4, 'rc': 65, 'value': spacing_units},
+        # (with spacing_pairs also: the frame spacing written as a negative number - the direction of the log is entry block 4's
+        # business, the spacing is a distance)
+        neg8 = spacing_pairs and draw(st.integers(0, 4)) == 0
+        blocks += [{'type': 8, 'size': 4, 'rc': 68, 'value': -float(xs['spacing']) if neg8 else float(xs['spacing'])}, {'type': 9, 'size': 4, 'rc': 65, 'value': spacing_units},
                    {'type': 13, 'size': 1, 'rc': 66, 'value': 1}, {'type': 14, 'size': 4, 'rc': 65, 'value': units},
                    {'type': 15, 'size': 1, 'rc': 66, 'value': depth_rc}]
     elif draw(st.booleans()):
